@@ -52,9 +52,10 @@ MultiplierClauses(e) ==
      <<"resolutionsSorted", e.obs.resn = resn>>,
      <<"predecessorDivides", \A i \in DOMAIN resn :
           IF e.obs.pred[i] = -1 THEN resn[i] \in B
-          ELSE /\ e.obs.pred[i] >= 0 /\ e.obs.pred[i] + 1 < i
+          ELSE /\ resn[i] \notin B                 \* a base is copied, never re-derived (F30)
+               /\ e.obs.pred[i] >= 0 /\ e.obs.pred[i] + 1 < i
                /\ resn[i] = resn[e.obs.pred[i] + 1] * e.obs.mult[i]>>,
-     <<"drift:predAsModel", \A i \in DOMAIN resn : e.obs.pred[i] + 1 = PredOf(resn, i)>> >>
+     <<"drift:predAsModel", \A i \in DOMAIN resn : e.obs.pred[i] + 1 = PredOf(resn, i, B)>> >>
 
 (* zm.zoomify: zoomify_cooler / `cooler zoomify` on a small base *)
 LevelOf(levels, r) == CHOOSE x \in Range(levels) : x.res = r
@@ -72,6 +73,10 @@ ZoomClauses(e) ==
      <<"baseFaithful", \A r \in Range(e.case.base_res) :
           /\ LevelOf(e.obs.levels, r).px = CoarsenBy(t, r \div b0, e.case.px, <<"sum">>)
           /\ LevelOf(e.obs.levels, r).table = CoarsenTable(t, r \div b0)>>,
+     \* a base level is a COPY of the cooler supplied for it: what only that cooler carries (an extra bin column, its
+     \* metadata) is there too - also when a smaller base divides it
+     <<"baseFaithful:copyNotRederived", ~e.case.tagged \/ \A r \in Range(e.case.base_res) :
+          LevelOf(e.obs.levels, r).tag = <<r>> /\ LevelOf(e.obs.levels, r).meta_base = r>>,
      <<"levelIsDirectCoarsening", \A r \in want :
           /\ LevelOf(e.obs.levels, r).px = (IF r = b0 THEN e.case.px ELSE CoarsenBy(t, r \div b0, e.case.px, <<"sum">>))
           /\ LevelOf(e.obs.levels, r).table = (IF r = b0 THEN t ELSE CoarsenTable(t, r \div b0))>>,
